@@ -62,10 +62,12 @@ class Sim:
             env = dict(env, SIMNET_FDMODE=self.fdmode)
         return self.k.spawn(name, "server", argv, list(ips), env=env, san_env=self.env, stdin_data=stdin_data, stdin_closed=stdin_closed, residue=residue)
 
-    def client(self, name, ip, nameserver, opts=(), password=None, domain=None):
+    def client(self, name, ip, nameserver, opts=(), password=None, domain=None, absent=None):
         pw = self.password if password is None else password
         argv = self.wrap + [self.cli_bin, "-f"] + list(opts) + ["-P", pw, nameserver, domain or self.domain]
         env = {"IODINE_PASS": ""}
+        if absent:
+            env["SIMNET_ABSENT"] = ":".join(absent)      # tools this host does not have (access() says ENOENT)
         if self.fdmode:
             env["SIMNET_FDMODE"] = self.fdmode
         return self.k.spawn(name, "client", argv, [ip], env=env, san_env=self.env)
